@@ -232,7 +232,13 @@ def execSignal (props : JVal) : M (R ExecRes) := do
             let cs ← kChildren p false
             match cs with
             | none => err := some .noSuchProcess
-            | some l => for c in l do let _ ← kKill c sig
+            | some l =>
+              -- `Process.send_signal_children` swallows OSError/ESRCH only: a child that vanished since the lookup
+              -- makes psutil raise NoSuchProcess, which ends the loop and the request
+              for c in l do
+                if err.isNone then
+                  let ok ← kKill c sig
+                  if !ok then err := some .noSuchProcess
         else
           match pj with
           | .int i =>
@@ -248,7 +254,11 @@ def execSignal (props : JVal) : M (R ExecRes) := do
               let cs ← kChildren p true
               match cs with
               | none => err := some .noSuchProcess
-              | some l => for c in l do let _ ← kKill c sig
+              | some l =>
+                for c in l do
+                  if err.isNone then
+                    let ok ← kKill c sig
+                    if !ok then err := some .noSuchProcess
     match err with
     | some e => pure (.error e)
     | none => pure (.ok (.value "-"))
